@@ -13,6 +13,36 @@ TEXT = {
           "false of the code (known finding F8).",
   "technique": "Lean 4 proof over a ledger state machine + differential replay of accepted blocks + conservation monitor",
  },
+ "C04": {
+  "text": "Kernel-checked invariants of the ledger state machine, by induction over accepted blocks (user send, user "
+          "receive, contract receive with observed outcome): receive markers pairwise distinct (no account receives a "
+          "send twice; a second attempt is refused with exactly alreadyReceived / notNext in every later state); above "
+          "the receiver-enforcement height every marker belongs to the send's addressee and every send hash has at most "
+          "one marker on the whole ledger; for every embedded contract the received hashes in acceptance order are a "
+          "prefix (= take front) of the confirmed sends addressed to it in confirmation order. Negative witness: below "
+          "the gate one send gets two markers. The model is the one replayed against every accepted block of generated "
+          "histories on a real node (ledger stream); model-free monitors scan send-hash -> receiving blocks and the FIFO "
+          "order on the real stores.",
+  "design_ref": "§3 C04",
+  "note": "Theorems are about the current chain of one node (T1-T4, N1); reorg/pool-replacement/restart stability (T5) is "
+          "exercised by the stream only. Hash freshness is a hypothesis of reachability. Below "
+          "ReceiverMismatchEnforcementHeight T2/T3 are false of the code (known finding F8).",
+  "technique": "Lean 4 invariant proof (induction over reachable states) + differential replay of accepted blocks + at-most-once/FIFO monitors",
+ },
+ "C09": {
+  "text": "Kernel-checked on the ledger model with contract methods as parameters: every accepted contract receive has "
+          "status applied or refunded, a refund emits exactly the sent amount back to the sender (nothing for amount 0), "
+          "leaves token storage and the contract's balance unchanged; in both cases the contract's balance moves by "
+          "+amount (+mint -burn for the token contract) - sum of descendants with no truncation; afterwards the inbox has "
+          "advanced by exactly one (the received send is marked, the next queued send is next in line); for a non-token "
+          "contract the refund of whatever is next in line is always accepted (it cannot fail for lack of funds), so no "
+          "accepted call can wedge the inbox at the VM-skeleton level. Tied to the code by the ledger stream (every "
+          "embedded method with generated ABI arguments; exact-refund monitor).",
+  "design_ref": "§3 C09",
+  "note": "Panic-freedom/termination of the Go methods and ABI decoder (T3-T5) is correspondence only in this round; the "
+          "token contract's non-wedging is not a theorem yet.",
+  "technique": "Lean 4 proof over the ledger state machine + differential replay of accepted blocks + exact-refund monitor",
+ },
  "C07": {
   "text": "Kernel-checked refinement: the rollback overlay that Get(X) folds from the stored undo patches, laid over the "
           "frontier, equals the store as of X for every key and every sequence of later commits (view_reconstructs), the "
